@@ -146,6 +146,7 @@ func treeRules(ctx *Ctx, r *Result) {
 			"R13.6":  "parseScheme and parsePort report success only after consuming at least one byte",
 			"R13.7":  "fastParseHost: step table of the domain/IPv4 scan",
 			"R13.11": "parseScheme and parsePort take the longest token (maximal munch)",
+			"R13.4":  "every accepted pattern has passed each documented guard and is assembled from what was lexed: scheme, the host in full (trailing dot and `*.` included, an IP in canonical text, classified by IsLoopback) and the port",
 		}
 		for id, doc := range docs {
 			r.rule(id, doc, 1)
